@@ -428,7 +428,7 @@ func finish(ld *Loaded, db *SpecDB, reports []*FuncReport, groups map[string]*ob
 			fn = n[:i]
 		}
 		kind := strings.TrimPrefix(n, fn+"/")
-		perInstr := strings.HasPrefix(kind, "safety#") || strings.HasPrefix(kind, "pre@") || strings.HasPrefix(kind, "frame#") || strings.HasPrefix(kind, "mapinv@") || strings.HasPrefix(kind, "closure-pre@") || strings.HasPrefix(kind, "inv-step#") && strings.Contains(kind, ":frame:")
+		perInstr := strings.HasPrefix(kind, "safety#") || strings.HasPrefix(kind, "pre@") || strings.HasPrefix(kind, "frame#") || strings.HasPrefix(kind, "mapinv@") || strings.HasPrefix(kind, "closure-pre@") || strings.HasPrefix(kind, "spawn-pre@") || strings.HasPrefix(kind, "inv-step#") && strings.Contains(kind, ":frame:")
 		if perInstr && cleanFunc[fn] {
 			moved = append(moved, n)
 			continue
@@ -440,6 +440,19 @@ func finish(ld *Loaded, db *SpecDB, reports []*FuncReport, groups map[string]*ob
 		// merged with another closure): verification is modular, so what it guaranteed must now
 		// be established by the functions that used to call it, whose own obligations are all
 		// still generated and checked.
+		// a `loop N` block whose loop no longer exists in the function (moved into a helper, merged)
+		if ds := droppedLoopSpecs[fn]; len(ds) > 0 && cleanFunc[fn] {
+			isDropped := false
+			for _, d := range ds {
+				if strings.Contains(kind, fmt.Sprintf("#loop%d:", d)) || strings.HasSuffix(kind, fmt.Sprintf("#loop%d", d)) {
+					isDropped = true
+				}
+			}
+			if isDropped {
+				moved = append(moved, n)
+				continue
+			}
+		}
 		if _, exists := ld.byKey[fn]; !exists && eligibleForRekey(fn) {
 			moved = append(moved, n)
 			goneFuncs[fn] = true
@@ -466,6 +479,20 @@ func finish(ld *Loaded, db *SpecDB, reports []*FuncReport, groups map[string]*ob
 		}
 		writeBaseNames(*flagNames, ld, keys)
 	}
+	boundedLoops := map[string]int{}
+	for _, r := range reports {
+		for k, v := range r.Bounded {
+			boundedLoops[k] = v
+		}
+	}
+	for _, k := range sortedKeys(boundedLoops) {
+		fmt.Printf("NOTE: %s has no loop specification: checked by unrolling (bound %d iterations) - bounded, not a proof\n", k, unrollBound)
+	}
+	evidenceExtra["bounded_loops"] = boundedLoops
+	for _, fnk := range sortedKeys(droppedLoopSpecs) {
+		fmt.Printf("NOTE: %s: loop specification block(s) %v have no loop any more and are not checked\n", fnk, droppedLoopSpecs[fnk])
+	}
+	evidenceExtra["loop_specs_dropped"] = droppedLoopSpecs
 	for _, fnk := range sortedKeys(goneFuncs) {
 		fmt.Printf("NOTE: %s no longer exists (unexported function or closure); its contract is not checked, its callers' contracts are\n", fnk)
 	}
